@@ -183,7 +183,7 @@ def natural_run(tdgl, p, base_tmp=None):
         if st["calls"] == 0:
             hashes[state_hash(kw)] = 0
         st["calls"] += 1
-        if fault and not fired["done"] and fault["where"] == "update" and fault["i"] == i and fault["stage"] == stage:
+        if fault and not fired["done"] and fault["where"] == "update" and fault["i"] == i and fault["stage"] == stage and fault["at"] == "pre":
             fired["done"] = True
             if fault["at"] == "pre":
                 events.append({"ev": "update", "i": i, "outcome": fault["kind"], "at": "pre"})
@@ -195,6 +195,13 @@ def natural_run(tdgl, p, base_tmp=None):
             events.append({"ev": "update", "i": i, "outcome": "Exc:" + type(e).__name__, "at": "pre"})
             raise
         used = float(res[0])
+        if fault and not fired["done"] and fault["where"] == "update" and fault["i"] == i and fault["stage"] == stage and fault["at"] == "post":
+            # the interrupt / error arrives at the very end of the REAL update (all its work done, its record appended,
+            # its scratch buffers written) but before the runner takes the new values: the step does not count, and
+            # nothing of it may show in what is saved afterwards
+            fired["done"] = True
+            events.append({"ev": "update", "i": i, "outcome": fault["kind"], "at": "post"})
+            raise (KeyboardInterrupt() if fault["kind"] == "KI" else RuntimeError("injected fault"))
         answered = [d for d, ok in evals if ok and d is not None]
         st["retries"] = st.get("retries", 0) + sum(1 for d, ok in evals if not ok)
         st["evals"] = st.get("evals", 0) + len(evals)
